@@ -58,9 +58,9 @@ fn main() {
         let mut flagged = false;
         for r in sys.reqs.iter().filter(|r| r.priority() <= o.outcome.priority_solved()) {
             let c = r.constraint();
-            let (_, d1) = vh::residual(c, &x);
-            let (_, d2) = vh::jacobian_rows(c, &x);
-            if d1 || d2 || ezpz_verif_harness::geom::in_guard_band(c, &x) || ezpz_verif_harness::geom::geom_err(c, &x, sys.scale).degenerate {
+            // degeneracy by the independent specification only (never the implementation's own flags:
+            // a request wrongly treated as degenerate loses its Jacobian row and must not be skipped)
+            if ezpz_verif_harness::geom::in_guard_band(c, &x) || ezpz_verif_harness::geom::geom_err(c, &x, sys.scale).degenerate {
                 flagged = true;
             }
             let dim = vh::residual_dim(c);
